@@ -9,6 +9,8 @@ import (
 
 	"github.com/256dpi/gomqtt/packet"
 	"github.com/256dpi/gomqtt/transport"
+
+	"verif/vrt"
 )
 
 // RealConn is the library's BaseConn plus the two address methods that NetConn / WebSocketConn add.
@@ -95,10 +97,19 @@ func (c *EndCarrier) SetReadDeadline(t time.Time) error {
 }
 
 // ClosersBehindBlockedWrite inspects the parked goroutines of the execution: it returns, for every goroutine that
-// waits for the send mutex inside transport.(*BaseConn).Close while some goroutine is blocked inside the carrier's
-// Write (and therefore holds that mutex), the function that called Close ("broker.(*Client).die", ...). The call
+// waits for a mutex inside transport.(*BaseConn).Close (the send mutex, or the buffered writer's mutex during the
+// flush) while some goroutine is blocked inside the carrier's Write (and therefore holds that mutex), the function that called Close ("broker.(*Client).die", ...). The call
 // site is what identifies the situation, independent of which scenario led to it.
 func ClosersBehindBlockedWrite() []string {
+	waiting := false
+	for _, b := range vrt.Blocked() {
+		if strings.HasSuffix(b, "@Mutex.Lock") {
+			waiting = true
+		}
+	}
+	if !waiting {
+		return nil // nobody is parked at a mutex: no need to look at stacks
+	}
 	buf := make([]byte, 1<<20)
 	buf = buf[:runtime.Stack(buf, true)]
 	var callers []string
